@@ -689,6 +689,8 @@ spifconf_shell_expand(spif_charptr_t s)
                       cnt1 = strlen((char *) tmp) - 1;
                       cnt2 = max - j - 1;
                       j += MIN(cnt1, cnt2);
+                  } else {
+                      j--;
                   }
                   pbuff--;
               } else {
